@@ -4,7 +4,7 @@ from vlib import common as C
 from vlib.framework import Corr
 
 META = {
-    "drivers": ["driver"],
+    "drivers": ["driver", "impcheck"],
     "rule": "case = sequence (sort) or ordered pair of sequences (permutation test); non-trivial: sort of length >= 2 not already sorted; "
             "pair of equal-length sequences of length >= 2",
     "trusted_base": ["g++ template instantiation (the values printed at run time are the compile-time results)"],
@@ -115,8 +115,13 @@ def evaluate_cfg(ctx, corr, sorts, pairs, cfg):
 
 
 def run(ctx):
+    # the tie through translation (DESIGN.md §11.6): every specialisation of static_permutation.hpp as written is one of the equations
+    # `Covfie.Tmpl.as_written` is about; if the header's text changed, the thorough tier's sequences run
+    from harness import translib as T
+    tie = T.Tie(ctx, ["static_permutation"])
+    deepened = bool(tie.changed()) and ctx.quick
     rnd = random.Random(ctx.seed * 613 + 20)
-    if ctx.quick:
+    if ctx.quick and not deepened:
         sorts = seqs(4, 4)
         base = seqs(4, 3)
         pairs = [(a, b) for a in base for b in base]          # every ordered pair of sequences of length <= 3 over {0..3}
@@ -162,13 +167,13 @@ def run(ctx):
             sorts.append(b)
     # high multiplicities over a tiny alphabet: K copies of one value against one copy of its successor (counters packed into a
     # machine word overflow into their neighbour at K = 16 or 256), the lengths kept equal
-    for K in ((16, 17, 32) if ctx.quick else (15, 16, 17, 31, 32, 33, 48, 64)):      # (beyond that, compilers give up on the fold expressions)
+    for K in ((16, 17, 32) if (ctx.quick and not deepened) else (15, 16, 17, 31, 32, 33, 48, 64)):      # (beyond that, compilers give up on the fold expressions)
         for v, y in ((0, 2), (1, 3), (2, 0)):
             a = [v] * K + [y + 1]
             b = [v + 1] + [y] * K
             pairs.append((a, b)); pairs.append((b, a)); pairs.append((a, a[::-1]))
             sorts.append(a[::-1] + [v])
-    for _ in range(4 if ctx.quick else 40):
+    for _ in range(4 if (ctx.quick and not deepened) else 40):
         n = rnd.randrange(17, 40)
         a = [rnd.randrange(0, 4) for _ in range(n)]
         b = a[:]; rnd.shuffle(b)
@@ -183,7 +188,11 @@ def run(ctx):
         if rnd.random() < 0.4:
             b[rnd.randrange(n)] = rnd.choice(a)
         pairs.append((a, b))
-    return evaluate(ctx, sorts, pairs)
+    corr = evaluate(ctx, sorts, pairs)
+    tie.merge(corr)
+    if deepened:
+        corr.info["deepened"] = True
+    return corr
 
 
 def replay(ctx):
